@@ -121,10 +121,13 @@ def run(ctx):
     rng = random.Random(f"c01-{ctx.seed}")
     for cid, spec in ctx.cases(all_cases(ctx)):
         if spec[0] == "lib" if isinstance(spec, tuple) else False:
-            c = cg.from_lib(spec[1])
+            mk = (lambda name=spec[1]: cg.from_lib(name))
+            c = mk()
             net = Net.of(c)
         else:
-            c = build(spec)
+            # replays must use a circuit built exactly like `c` (same insertion order => same set iteration order)
+            mk = (lambda spec=spec: build(spec))
+            c = mk()
             net = Net.from_spec(spec)
             if wellformed(net):
                 ctx.rejected("not lint-clean (outside the property's domain)")
@@ -145,16 +148,16 @@ def run(ctx):
             continue
         CNF, X = cnf_terms(formula, variables, V)
 
-        def replay_sound(m, c=c, net=net, V=V):
+        def replay_sound(m, c=c, net=net, V=V, mk=mk):
             val = sim.model_bits(m, V)
-            r, e = call(cgsat.solve, build(net.spec()), {n: bool(b) for n, b in val.items()})
+            r, e = call(cgsat.solve, mk(), {n: bool(b) for n, b in val.items()})
             ok = (not sim.consistent(net, val)) and isinstance(r, dict)
             return {"reproduced": ok, "sig": "cnf:unsound", "what": "cnf admits an inconsistent valuation (solve returns it)",
                     "detail": {"valuation": val, "solve": str(r)[:300], "err": repr(e)}}
 
-        def replay_complete(m, c=c, net=net, V=V):
+        def replay_complete(m, c=c, net=net, V=V, mk=mk):
             val = sim.model_bits(m, V)
-            r, e = call(cgsat.solve, build(net.spec()), {n: bool(b) for n, b in val.items()})
+            r, e = call(cgsat.solve, mk(), {n: bool(b) for n, b in val.items()})
             ok = sim.consistent(net, val) and (r is False or e is not None)
             return {"reproduced": ok, "sig": classify_incomplete(net), "what": "a consistent valuation is excluded by cnf(): solve() returns False for it",
                     "detail": {"valuation": val, "solve": str(r)[:300], "err": repr(e), "circuit": net.spec() if len(nodes) < 30 else None}}
@@ -202,7 +205,7 @@ def run(ctx):
             wrong = V[g] != sem.gate_bool(net.types[g], [V[p] for p in net.preds[g]])
             # O1 with the wrong oracle (gate g's relation negated) must be refutable, i.e. SAT
             ctx.twin("twin-wrong-gate", [CNF, z3.Not(wrong)])
-        solve_api(ctx, cgsat, net, V, R, rng, cid)
+        solve_api(ctx, cgsat, net, V, R, rng, cid, mk)
 
 
 def classify_incomplete(net):
@@ -217,7 +220,7 @@ def classify_incomplete(net):
     return "cnf:incomplete"
 
 
-def solve_api(ctx, cgsat, net, V, R, rng, cid):
+def solve_api(ctx, cgsat, net, V, R, rng, cid, mk):
     """O4: verdicts of the real solve() against z3 on the reference relation"""
     nodes = net.nodes()
     ref = z3.Solver()
@@ -252,7 +255,7 @@ def solve_api(ctx, cgsat, net, V, R, rng, cid):
     asets.append({nodes[0]: 1})
     asets.append({nodes[-1]: 0})
     for A in asets:
-        c = build(net.spec())
+        c = mk()
         r, e = call(cgsat.solve, c, dict(A))
         ctx.count("solve_calls")
         exp = ref_sat({n: bool(b) for n, b in A.items()})
@@ -267,6 +270,6 @@ def solve_api(ctx, cgsat, net, V, R, rng, cid):
                 and sim.consistent(net, {n: int(bool(b)) for n, b in r.items()})
             ctx.side("solve-model", ok, "solve:bad-model", "solve() returned a valuation that is not a consistent extension of the assumptions",
                      {"case": cid, "A": A, "ret": str(r)[:300], "expected_sat": exp})
-    c = build(net.spec())
+    c = mk()
     r, e = call(cgsat.solve, c, {"__no_such_node__": True})
     ctx.side("solve-nonnode", isinstance(e, ValueError), "solve:non-node-not-rejected", f"assumption on a non-node: expected ValueError, got {r!r} / {e!r}")
